@@ -152,11 +152,15 @@ func c11Circuits(c *Ctx) {
 	if c.Thorough() {
 		ctxs = append(ctxs, newC11CKKS(6, true, false), newC11BGV(4, true), newC11CKKS(5, true, true))
 	}
+	dfts := []*c11Ctx{newC11Multi("ckks", 6, 4, 1)}
+	if c.Thorough() {
+		dfts = append(dfts, newC11Multi("ckks", 8, 4, 1), newC11Multi("ckks", 5, 3, 2))
+	}
+	for _, x := range dfts {
+		c11DFT(c, x)
+	}
 	for _, x := range ctxs {
 		c11LinTrans(c, x)
-		if x.name == "ckks" {
-			c11DFT(c, x)
-		}
 		det := ""
 		if x.t == 0 && !(x.maxRoundErr < 0.05) {
 			det = fmt.Sprintf("max |x-round(x)| = %g (tolerance 0.05)", x.maxRoundErr)
@@ -264,67 +268,89 @@ func c11LinTrans(c *Ctx, x *c11Ctx) {
 	}
 }
 
-// c11DFT: CoeffsToSlots / SlotsToCoeffs with keys for exactly MatrixLiteral.GaloisElements (+ conjugation).
+// c11DFT: CoeffsToSlots / SlotsToCoeffs with keys for exactly MatrixLiteral.GaloisElements (+ conjugation), over
+// LogSlots 1..LogN-1 × Type × Format × BitReversed × Levels splits (symmetric and asymmetric merges) × BSGS ratio.
 func c11DFT(c *Ctx, x *c11Ctx) {
 	params := x.ckksP
 	logMax := params.LogMaxSlots()
-	for _, logSlots := range []int{logMax, logMax - 1, 2} {
+	splits := [][]int{{1}, {1, 1}, {2}, {2, 1}, {1, 2}, {1, 1, 1}, {3}}
+	n := 0
+	for logSlots := 1; logSlots <= logMax; logSlots++ {
 		for _, typ := range []dft.Type{dft.HomomorphicEncode, dft.HomomorphicDecode} {
 			for _, format := range []dft.Format{dft.Standard, dft.SplitRealAndImag, dft.RepackImagAsReal} {
-				for _, ratio := range []int{0, 1, 2} {
-					if !c.Thorough() && (int(format)+ratio+logSlots)%2 == 1 {
-						continue
+				for _, bitrev := range []bool{false, true} {
+					for _, split := range splits {
+						depth := 0
+						for _, d := range split {
+							depth += d
+						}
+						if depth > logSlots || len(split) > params.MaxLevel() {
+							continue
+						}
+						ratios := []int{0, 1, 2}
+						if !c.Thorough() {
+							n++
+							ratios = []int{n % 3}
+						}
+						for _, ratio := range ratios {
+							c11DFTCase(c, x, dft.MatrixLiteral{Type: typ, Format: format, BitReversed: bitrev, LogSlots: logSlots, LevelQ: params.MaxLevel(),
+								LevelP: params.MaxLevelP(), Levels: split, LogBSGSRatio: ratio})
+						}
 					}
-					lit := dft.MatrixLiteral{Type: typ, Format: format, LogSlots: logSlots, LevelQ: params.MaxLevel(), LevelP: params.MaxLevelP(), Levels: []int{1}, LogBSGSRatio: ratio}
-					desc := fmt.Sprintf("%s dft type=%d format=%d logSlots=%d/%d ratio=%d", x.tag(), typ, format, logSlots, logMax, ratio)
-					det := ""
-					var missing *[]uint64
-					func() {
-						defer func() {
-							if r := recover(); r != nil {
-								det = fmt.Sprintf("panic: %v", r)
-							}
-						}()
-						m, err := dft.NewMatrixFromLiteral(params, lit, x.ckksE)
-						if err != nil {
-							det = "matrix: " + err.Error()
-							return
-						}
-						gal := append(lit.GaloisElements(params), params.GaloisElementForComplexConjugation())
-						var evk c11LogKeys
-						evk, _, missing = x.keysFor(gal, false)
-						de := dft.NewEvaluator(params, x.ckksEv.WithKey(evk))
-						v := make([]int64, 2<<uint(logSlots))
-						for i := range v {
-							v[i] = int64(c.rng.Intn(41)) - 20
-						}
-						ct := x.metaEncrypt(v, c11MetaIn{scale: x.rp.DefaultScale(), logCols: logSlots, batched: true, level: params.MaxLevel()})
-						two := format == dft.SplitRealAndImag || (format == dft.RepackImagAsReal && logSlots == logMax)
-						if typ == dft.HomomorphicEncode {
-							re := ckks.NewCiphertext(params, 1, m.LevelQ)
-							var im *rlwe.Ciphertext
-							if two {
-								im = ckks.NewCiphertext(params, 1, m.LevelQ)
-							}
-							err = de.CoeffsToSlots(ct, m, re, im)
-						} else {
-							var im *rlwe.Ciphertext
-							if two {
-								im = ct.CopyNew()
-							}
-							_, err = de.SlotsToCoeffsNew(ct, im, m)
-						}
-						if err != nil {
-							det = "status=" + err.Error()
-						}
-					}()
-					if missing != nil && len(*missing) > 0 {
-						det = fmt.Sprintf("missing=%s %s", Vec(*missing), det)
-					}
-					c.Count("circuits:dft")
-					c.Probe("circuit_keys_sufficient", desc, "C11-circuit-keys-dft", det)
 				}
 			}
 		}
 	}
+}
+
+func c11DFTCase(c *Ctx, x *c11Ctx, lit dft.MatrixLiteral) {
+	params := x.ckksP
+	logSlots, logMax := lit.LogSlots, params.LogMaxSlots()
+	desc := fmt.Sprintf("%s dft type=%d format=%d bitrev=%v logSlots=%d/%d levels=%s ratio=%d", x.tag(), lit.Type, lit.Format, lit.BitReversed, logSlots, logMax, c11IntVec(lit.Levels), lit.LogBSGSRatio)
+	det := ""
+	var missing *[]uint64
+	func() {
+		defer func() {
+			if r := recover(); r != nil {
+				det = fmt.Sprintf("panic: %v", r)
+			}
+		}()
+		m, err := dft.NewMatrixFromLiteral(params, lit, x.ckksE)
+		if err != nil {
+			det = "matrix: " + err.Error()
+			return
+		}
+		gal := append(lit.GaloisElements(params), params.GaloisElementForComplexConjugation())
+		var evk c11LogKeys
+		evk, _, missing = x.keysFor(gal, false)
+		de := dft.NewEvaluator(params, x.ckksEv.WithKey(evk))
+		v := make([]int64, 2<<uint(logSlots))
+		for i := range v {
+			v[i] = int64(c.rng.Intn(41)) - 20
+		}
+		ct := x.metaEncrypt(v, c11MetaIn{scale: x.rp.DefaultScale(), logCols: logSlots, batched: true, level: params.MaxLevel()})
+		two := lit.Format == dft.SplitRealAndImag || (lit.Format == dft.RepackImagAsReal && logSlots == logMax)
+		if lit.Type == dft.HomomorphicEncode {
+			re := ckks.NewCiphertext(params, 1, m.LevelQ)
+			var im *rlwe.Ciphertext
+			if two {
+				im = ckks.NewCiphertext(params, 1, m.LevelQ)
+			}
+			err = de.CoeffsToSlots(ct, m, re, im)
+		} else {
+			var im *rlwe.Ciphertext
+			if two {
+				im = ct.CopyNew()
+			}
+			_, err = de.SlotsToCoeffsNew(ct, im, m)
+		}
+		if err != nil {
+			det = "status=" + err.Error()
+		}
+	}()
+	if missing != nil && len(*missing) > 0 {
+		det = fmt.Sprintf("missing=%s %s", Vec(*missing), det)
+	}
+	c.Count("circuits:dft")
+	c.Probe("circuit_keys_sufficient", desc, "C11-circuit-keys-dft", det)
 }
